@@ -94,6 +94,12 @@ class Module(object):
         if not os.environ.get('SA_NO_CANON'):
             from . import canon
             self.tree = canon.normalise(self.tree)
+            if not os.environ.get('SA_NO_INLINE'):
+                from . import inline
+                self.folded = inline.inline_module(self.tree, self.name)
+                if self.folded:
+                    self.tree = canon.normalise(self.tree)
+        self.folded = getattr(self, 'folded', [])
         self.funcs = {}          # qualname -> [Func] (duplicates: if/else variants in order)
         self.classes = {}        # qualname -> ClassDef
         self.class_bases = {}    # qualname -> [base source]
